@@ -95,7 +95,7 @@ def run(tier: str, seed: int, t0: float) -> int:
     jobs.append((b, "G+T diff[s1t]"))
     # ---- T: real edit histories on bundled schemas
     from prosemirror.transform import Transform
-    for name in schemas.BUNDLED_PLUS + ["s4", "bm"]:        # (s4, bm: mark types that may occur twice in one set)
+    for name in schemas.BUNDLED_PLUS + ["s4", "bm", "at"]:  # (s4, bm: mark types that may occur twice in one set; at: atoms with content)
         sch2, js2, prs = universe.random_docs(name, 15 if not thorough else 150, rng)
         slices = []
         for toks, rd in prs:
